@@ -191,6 +191,14 @@ STATEFUL = [
     [[b"PUBLISH", b"", b""], [b"PUBSUB", b"channels", b"["], [b"PUBSUB", b"numsub"], [b"pubsub"], [b"pubsub", b"foo"],
      [b"PSUBSCRIBE", b"["], [b"PUBLISH", b"[", b"x"]],
     [[b"SUBSCRIBE", b"a"], [b"DM.PUT", b"d", b"k", b"v", b"PX"], [b"PING"]],
+    # a connection in subscribed mode is served by the pub/sub loop, not by the multiplexer
+    [[b"SUBSCRIBE", b"a"], [b"UNSUBSCRIBE", b"b"], [b"PING"]],
+    [[b"SUBSCRIBE", b"a"], [b"PUNSUBSCRIBE", b"q*"], [b"PUNSUBSCRIBE", b"a"], [b"PING"]],
+    [[b"PSUBSCRIBE", b"p*"], [b"UNSUBSCRIBE", b"a"], [b"PUNSUBSCRIBE", b"zz"], [b"UNSUBSCRIBE", b"p*"], [b"PING"]],
+    [[b"SUBSCRIBE", b"a"], [b"UNSUBSCRIBE", b"a"], [b"UNSUBSCRIBE", b"a"], [b"PING"]],
+    [[b"SUBSCRIBE", b"a"], [b"SUBSCRIBE", b"a"], [b"UNSUBSCRIBE"], [b"PUNSUBSCRIBE"], [b"UNSUBSCRIBE"], [b"PING"]],
+    [[b"SUBSCRIBE", b"a"], [b"SUBSCRIBE"], [b"PSUBSCRIBE"], [b"PING", b"x", b"y"], [b"DM.GET", b"d", b"k"], [b"PUBLISH", b"a", b"x"], [b"QUIT"]],
+    [[b"PSUBSCRIBE", b"["], [b"PUNSUBSCRIBE", b"["], [b"PUNSUBSCRIBE", b"\\"], [b"UNSUBSCRIBE", b""], [b"PING"]],
     [[b"STATS", b"CR"], [b"CLUSTER.ROUTINGTABLE"], [b"CLUSTER.MEMBERS"], [b"DM.DESTROY", b"d"], [b"DM.DESTROY", b"d", b"LC"]],
     [[b"DM.DEL", b"d"] + [b"k%d" % i for i in range(1500)]],
 ]
